@@ -139,23 +139,14 @@ Print Assumptions C12_expect_accepted_header_declares.
 
 (* A stream error in place of a header comes back as that error (the condition
    is the last child of the stream error name space that is not <text/>), for
-   every list of children RFC 6120 defines, in both roles and framings.
-   Partial: see the refutation for application-specific conditions. *)
-Theorem C12_stream_error_returned_partial :
+   every list of children — defined conditions, <text/>, application-specific
+   conditions in other name spaces, character data — in both roles and framings. *)
+Theorem C12_stream_error_returned :
   forall parse recv ws i attrs kids ens el rest,
-    forallb defined_child kids = true ->
     expect parse recv ws i (TStart ns_stream (str "error") attrs :: flat_map flatten kids ++ TEnd ens el :: rest)
     = (EStream (cond_of kids []), i, []).
 Proof. exact stream_error_returned. Qed.
-Print Assumptions C12_stream_error_returned_partial.
-
-(* Full strength: any children. stream/error.go does not skip a child outside
-   the stream error name space (an application-specific condition), returns at
-   its end tag, and encoding/xml reports an error that is not the stream error. *)
-Definition C12_stream_error_statement : Prop := stream_error_any_children_statement.
-Theorem C12_stream_error_refuted : ~ C12_stream_error_statement.
-Proof. exact stream_error_application_condition_refuted. Qed.
-Print Assumptions C12_stream_error_refuted.
+Print Assumptions C12_stream_error_returned.
 
 (* ---- addresses across restarts ---- *)
 
@@ -171,16 +162,37 @@ Theorem C12_restart_addresses_stable_receiving :
 Proof. intros parse s2s ws lang. exact (rounds_recv parse s2s ws lang). Qed.
 Print Assumptions C12_restart_addresses_stable_receiving.
 
-(* Initiating side: both addresses are those the session started with (a header
-   without "to" is tolerated, it changes nothing). Premise: jid.Parse never
-   yields the empty JID. *)
-Theorem C12_restart_addresses_stable_initiating :
+(* Initiating side. Premise: jid.Parse never yields the empty JID.
+   Full strength: both addresses are those the session started with. *)
+Definition C12_restart_addresses_stable_initiating_statement : Prop := restart_init_statement.
+
+(* Refuted by the faithful model: a header carrying to='' is unmarshalled to
+   the zero JID (JID.UnmarshalXMLAttr), the negotiator tolerates it like a
+   missing "to", and the session's own address is the zero JID afterwards. *)
+Theorem C12_restart_addresses_stable_initiating_refuted : ~ C12_restart_addresses_stable_initiating_statement.
+Proof. exact restart_init_refuted. Qed.
+Print Assumptions C12_restart_addresses_stable_initiating_refuted.
+
+(* Proved for every sequence: the peer's address never changes; our own is the
+   established one or the zero JID, never another address. *)
+Theorem C12_restart_addresses_stable_initiating_partial :
   forall parse, (forall v j, parse v = Some j -> j <> jid_zero) ->
   forall s2s ws lang rounds i i' wires,
     neg_rounds parse false s2s ws lang i rounds = (NOk, i', wires) ->
+    i_from i' = i_from i /\ (i_to i' = i_to i \/ i_to i' = jid_zero).
+Proof. intros parse Pz s2s ws lang. exact (rounds_init_weak parse Pz s2s ws lang). Qed.
+Print Assumptions C12_restart_addresses_stable_initiating_partial.
+
+(* ... and when no header carries an empty "to" attribute, both addresses are
+   those the session started with (a header without "to" changes nothing). *)
+Theorem C12_restart_addresses_stable_initiating_no_empty_to :
+  forall parse, (forall v j, parse v = Some j -> j <> jid_zero) ->
+  forall s2s ws lang rounds i i' wires,
+    forallb (fun r => no_empty_to (snd r)) rounds = true ->
+    neg_rounds parse false s2s ws lang i rounds = (NOk, i', wires) ->
     i_to i' = i_to i /\ i_from i' = i_from i.
 Proof. intros parse Pz s2s ws lang. exact (rounds_init parse Pz s2s ws lang). Qed.
-Print Assumptions C12_restart_addresses_stable_initiating.
+Print Assumptions C12_restart_addresses_stable_initiating_no_empty_to.
 
 (* One (re)start: a header after which an established address would differ is refused. *)
 Theorem C12_changed_address_rejected_receiving :
@@ -197,7 +209,7 @@ Theorem C12_changed_address_rejected_initiating :
   forall parse s2s ws lang rid i ts res i' w,
     (forall v j, parse v = Some j -> j <> jid_zero) ->
     neg_round parse false s2s ws lang rid i ts = (res, i', w) ->
-    i_to i' <> i_to i \/ i_from i' <> i_from i ->
+    (i_to i' <> i_to i /\ i_to i' <> jid_zero) \/ i_from i' <> i_from i ->
     res <> NOk.
 Proof. exact changed_address_rejected_init. Qed.
 Print Assumptions C12_changed_address_rejected_initiating.
